@@ -540,6 +540,13 @@ func c03GenOps(rng *rand.Rand, kinds []string, nops, file, maxPacket, g int) []c
 		case "mread":
 			op.n = maxPacket + 1 + rng.Intn(maxPacket*9)
 			op.off = int64(rng.Intn(c03FileSize - 4096))
+		case "mwrite": // more chunks than the per-file request limit (4 in class multi), sent by the concurrent write path
+			op.n = maxPacket*4 + 1 + rng.Intn(maxPacket*9)
+			op.off = int64(rng.Intn(1 << 30))
+			op.data = make([]byte, op.n)
+			for x := range op.data {
+				op.data[x] = byte(g*131 + i*17 + x*29 + 1)
+			}
 		case "mreadeof":
 			op.n = maxPacket*2 + rng.Intn(maxPacket*6)
 			op.off = c03FileSize - 1 - int64(rng.Intn(op.n-maxPacket))
@@ -560,6 +567,14 @@ func c03Expected(keys map[string]int, op c03Op, maxPacket int) {
 		keys[fmt.Sprintf("W|h%d|%d|%x", op.j, op.off, op.data)]++
 	case "read":
 		keys[fmt.Sprintf("R|h%d|%d|%d", op.j, op.off, op.n)]++
+	case "mwrite":
+		for o := 0; o < op.n; o += maxPacket {
+			l := op.n - o
+			if l > maxPacket {
+				l = maxPacket
+			}
+			keys[fmt.Sprintf("W|h%d|%d|%x", op.j, op.off+int64(o), op.data[o:o+l])]++
+		}
 	case "mread":
 		for o := 0; o < op.n; o += maxPacket {
 			l := op.n - o
@@ -609,7 +624,7 @@ func c03Check(cl *sftp.Client, f *sftp.File, op c03Op) string {
 		if !bytes.Equal(b[:n], c03Data(op.j, uint64(op.off), n)) {
 			return "wrong-reply: ReadAt returned bytes the server produced for another handle or offset"
 		}
-	case "write":
+	case "write", "mwrite":
 		n, err := f.WriteAt(op.data, op.off)
 		if err != nil || n != op.n {
 			return "wrong-reply: WriteAt did not return the server's OK status"
@@ -628,7 +643,7 @@ func c03RunCase(class string, G, W int, kinds []string, nops int, perm func(batc
 	if class == "multi" {
 		maxPacket = 16
 		idle = 6 * time.Millisecond
-		opts = []sftp.ClientOption{sftp.MaxPacketUnchecked(16), sftp.MaxConcurrentRequestsPerFile(4)}
+		opts = []sftp.ClientOption{sftp.MaxPacketUnchecked(16), sftp.MaxConcurrentRequestsPerFile(4), sftp.UseConcurrentWrites(true)}
 	}
 	p := newC03Peer(c2, idle, perm)
 	rec := &c03WireRec{w: c1}
@@ -767,12 +782,13 @@ func c03RunCase(class string, G, W int, kinds []string, nops int, perm func(batc
 
 func runC03(c *Ctx) {
 	c.Rule("kind perm: g goroutines share one Client (even ones one *File, odd ones their own) and run seeded mixes of Stat(existing/missing), single-packet ReadAt (also across EOF), WriteAt " +
-		"(class=single) or multi-chunk ReadAt with MaxPacketUnchecked(16)/MaxConcurrentRequestsPerFile(4) mixed with the others (class=multi); the scripted peer validates every request frame, " +
+		"(class=single) or multi-chunk ReadAt and, on the concurrent write path (UseConcurrentWrites), WriteAt of more chunks than the per-file request limit, with MaxPacketUnchecked(16)/MaxConcurrentRequestsPerFile(4), mixed with the others (class=multi); the scripted peer validates every request frame, " +
 		"rejects an id reused while unanswered, answers by request-dependent content and releases held replies whenever w are outstanding (or after an idle time) in a permuted order: " +
 		"w<=4: permutation number hist+batch of the held set (all permutations over successive hist), w>4: seeded shuffle; " +
 		"non-trivial = at least one reply was written while an older request was still unanswered")
 	singleMixes := [][]string{{"stat"}, {"read"}, {"stat", "read"}, {"stat", "read", "write"}, {"stat", "staterr", "read", "readeof", "write"}}
-	multiMixes := [][]string{{"mread"}, {"mread", "stat"}, {"mread", "read", "stat"}, {"mread", "mreadeof", "stat", "staterr", "write"}, {"mread", "mread", "mread", "write"}}
+	multiMixes := [][]string{{"mread"}, {"mread", "stat"}, {"mread", "read", "stat"}, {"mread", "mreadeof", "stat", "staterr", "write"}, {"mread", "mread", "mread", "write"},
+		{"mwrite", "stat"}, {"mwrite", "mread", "stat", "write"}}
 	type combo struct {
 		class string
 		g, w  int
